@@ -89,11 +89,3 @@ func TestVerifC20Wire(t *testing.T) {
 	rep.RequireMin("responses_in_requested_encoding", 10)
 }
 
-func vfExpectHeadersC20(h http.Header, ver, comp int) {
-	h.Set("X-Expect-Http-Version", fmt.Sprint(ver))
-	h.Set("X-Expect-Http-Method", "POST")
-	h.Set("X-Expect-Protocol", "1")
-	h.Set("X-Expect-Codec", "1")
-	h.Set("X-Expect-Compression", fmt.Sprint(comp))
-	h.Set("X-Expect-Tls", "false")
-}
